@@ -27,10 +27,10 @@ func (s byteSet) contains(b byte) bool {
 // byte sets below are built with this function
 //
 func byteRange(a, b byte) (s byteSet) {
-	for i := a; i < b; i++ {
-		s.add(i)
+	// The range is empty if a > b
+	for i := int(a); i <= int(b); i++ {
+		s.add(byte(i))
 	}
-	s.add(b)
 	return
 }
 
